@@ -29,6 +29,8 @@ type Plan struct {
 	UpLen    int    `json:"up"`
 	UpMode   string `json:"up_mode"` // cl | chunked (h1) ; data (h2)
 	UpTrail  bool   `json:"up_trailers"`
+	TrailMs  int    `json:"trailer_delay_ms,omitempty"` // HTTP/2: wait this long before the trailers (they cross the proxy's early response)
+	PauseMs  int    `json:"frame_pause_ms,omitempty"`   // HTTP/2: pause between DATA frames (a slow upload)
 	DownLen  int    `json:"down"`
 	DownPc   int    `json:"down_piece"`
 	Status   int    `json:"status"`
@@ -327,6 +329,9 @@ func (c *h2conn) open(sid uint32, p *Plan) {
 	if p.UpTrail {
 		fs = append(fs, h2raw.HF{"trailer", "X-Up-Trailer"})
 	}
+	if p.UpMode == "data_cl" {
+		fs = append(fs, h2raw.HF{"content-length", strconv.Itoa(p.UpLen)})
+	}
 	noBody := p.UpLen == 0 && !p.UpTrail
 	c.wmu.Lock()
 	c.cl.Conn.Write(h2raw.Headers(sid, noBody, h2raw.Block(fs), nil, 1000)) // header block split over CONTINUATION frames
@@ -367,6 +372,9 @@ func (c *h2conn) send(sid uint32, p *Plan, rng *rand.Rand) {
 			c.swin[sid] -= cost
 			c.fmu.Unlock()
 			last := i == len(ps)-1 && n == k && !p.UpTrail
+			if p.PauseMs > 0 {
+				time.Sleep(time.Duration(p.PauseMs) * time.Millisecond)
+			}
 			c.wmu.Lock()
 			c.cl.Conn.Write(h2raw.Data(sid, last, fill(p.ID, 'u', off, n), pad))
 			c.wmu.Unlock()
@@ -375,6 +383,9 @@ func (c *h2conn) send(sid uint32, p *Plan, rng *rand.Rand) {
 		}
 	}
 	if p.UpTrail {
+		if p.TrailMs > 0 {
+			time.Sleep(time.Duration(p.TrailMs) * time.Millisecond)
+		}
 		c.wmu.Lock()
 		c.cl.Conn.Write(h2raw.Headers(sid, true, h2raw.Block([]h2raw.HF{{"x-up-trailer", "t" + strconv.Itoa(p.ID)}}), nil, 0))
 		c.wmu.Unlock()
@@ -448,8 +459,8 @@ func main() {
 	if thorough {
 		sizes = append(sizes, 2<<20, 5<<20)
 	}
-	mk := func(proto string, class string, preserve bool) *Plan {
-		p := &Plan{ID: nextID, Proto: proto, Method: []string{"POST", "PUT", "PATCH"}[rng.Intn(3)], Target: targets[rng.Intn(len(targets))],
+	mk := func(proto string, class string, preserve bool, fix ...func(*Plan)) *Plan {
+		p := &Plan{ID: nextID, Proto: proto, Method: []string{"POST", "PUT", "PATCH", "GET", "DELETE", "OPTIONS"}[rng.Intn(6)], Target: targets[rng.Intn(len(targets))],
 			UpLen: sizes[rng.Intn(len(sizes))], DownLen: sizes[rng.Intn(len(sizes))], DownPc: []int{1, 100, 4096, 70000}[rng.Intn(4)],
 			Status: []int{200, 201, 404, 500}[rng.Intn(4)], DownTr: rng.Intn(3) == 0, Class: class, Preserve: preserve}
 		if p.DownPc == 1 && p.DownLen > 5000 {
@@ -459,8 +470,14 @@ func main() {
 			p.UpMode = []string{"cl", "chunked"}[rng.Intn(2)]
 			p.UpTrail = p.UpMode == "chunked" && rng.Intn(2) == 0
 		} else {
-			p.UpMode = "data"
+			p.UpMode = []string{"data", "data_cl"}[rng.Intn(2)] // DATA frames without / with a content-length field
 			p.UpTrail = rng.Intn(3) == 0
+			if p.UpMode == "data_cl" && p.UpLen == 0 {
+				p.UpTrail = false // declared empty body + trailers: the proxy answers without waiting for them; kept apart (D17, class trailers_after_early_response)
+			}
+		}
+		for _, f := range fix {
+			f(p)
 		}
 		nextID++
 		plans.Store(p.ID, p)
@@ -485,6 +502,19 @@ func main() {
 			n := 3 + rng.Intn(3)
 			for i := 0; i < n; i++ {
 				ps = append(ps, mk(proto, "normal", preserve))
+			}
+			if c < 2 {
+				// fixed corner plans on the first connection of each protocol: bodies on methods that usually have none, with and without a declared length
+				fixed := map[string][][3]any{
+					"h1": {{"GET", "chunked", 1000}, {"DELETE", "cl", 1}, {"OPTIONS", "chunked", 70000}, {"GET", "cl", 1000}},
+					"h2": {{"GET", "data", 1000}, {"GET", "data_cl", 1000}, {"DELETE", "data", 1}, {"OPTIONS", "data", 70000}},
+				}[proto]
+				for _, fx := range fixed {
+					fx := fx
+					ps = append(ps, mk(proto, "normal", preserve, func(p *Plan) {
+						p.Method, p.UpMode, p.UpLen, p.UpTrail = fx[0].(string), fx[1].(string), fx[2].(int), false
+					}))
+				}
 			}
 			wg.Add(1)
 			go func(proto string, ps []*Plan, seed int64) {
@@ -550,6 +580,28 @@ func main() {
 				}
 				ev(map[string]any{"op": "end", "class": class})
 			}
+		}
+		if !preserve {
+			// D17: request A declares content-length 0 and announces trailers; the proxy does not wait for them and answers; A's trailers, already on
+			// their way, reach the server after it forgot the stream.  Request B, a slow upload on the same connection, must not suffer.
+			class := "trailers_after_early_response"
+			ev(map[string]any{"op": "reset", "class": class})
+			pa := mk("h2", class, false, func(p *Plan) {
+				p.Method, p.UpMode, p.UpLen, p.UpTrail, p.TrailMs, p.DownLen, p.DownTr = "POST", "data_cl", 0, true, 250, 0, false
+			})
+			pb := mk("h2", class, false, func(p *Plan) {
+				p.Method, p.UpMode, p.UpLen, p.UpTrail, p.PauseMs, p.DownLen, p.DownTr = "POST", "data", 300000, false, 25, 1000, false
+			})
+			cl, err := stack.DialStd(st.Addr, stack.DialOpts{ALPN: []string{"h2"}}, nil)
+			if err == nil {
+				if err := h2Batch(cl, []*Plan{pa, pb}, rng); err != nil {
+					ev(map[string]any{"op": "client_error", "r": pb.ID, "err": err.Error()})
+				}
+				cl.Close()
+			} else {
+				notes = append(notes, "dial: "+err.Error())
+			}
+			ev(map[string]any{"op": "end", "class": class})
 		}
 		st.Close()
 	}
